@@ -45,7 +45,11 @@ func (e *Enc) implicitPre(fn *ssa.Function) []implPre {
 					continue
 				}
 			} else if _, isStruct := under(pt.Elem()).(*types.Struct); !isStruct {
-				continue
+				// pointers to other things (named slices such as *bscript.Script): required non-nil only when the
+				// function dereferences them without any nil test
+				if !derefsUnconditionally(p) {
+					continue
+				}
 			}
 			if comparedWithNil(p) {
 				continue
@@ -117,6 +121,19 @@ func comparedWithNil(p *ssa.Parameter) bool {
 			if c, isC := b.X.(*ssa.Const); isC && c.Value == nil {
 				return true
 			}
+		}
+	}
+	return false
+}
+
+// derefsUnconditionally: the parameter is loaded from in the entry block (before any branch).
+func derefsUnconditionally(p *ssa.Parameter) bool {
+	if p.Referrers() == nil {
+		return false
+	}
+	for _, r := range *p.Referrers() {
+		if u, ok := r.(*ssa.UnOp); ok && u.X == ssa.Value(p) && u.Block().Index == 0 {
+			return true
 		}
 	}
 	return false
